@@ -27,8 +27,8 @@ def setup(ctx, label, tts, order=None, extra_mgr=False):
     return M, refs
 
 
-OPS = ['and', 'xor', 'ite', 'quantify', 'let_bool', 'let_ref', 'let_name', 'cube', 'var',
-       'copy', 'image', 'preimage', 'find_or_add', 'compose1']
+OPS = ['and', 'xor', 'ite', 'quantify', 'apply_exists', 'apply_forall', 'let_bool', 'let_ref',
+       'let_name', 'cube', 'var', 'copy', 'image', 'preimage', 'find_or_add', 'compose1']
 
 
 def run_one(ctx, opname, tts, k, natural=None):
@@ -65,6 +65,11 @@ def run_one(ctx, opname, tts, k, natural=None):
     elif opname == 'quantify':
         r = M.op('quantify', u0, 'n', [0, 2], False)
         expect = T.exists(t0, n, [0, 2])
+    elif opname in ('apply_exists', 'apply_forall'):
+        fa = opname == 'apply_forall'
+        sup = sorted(T.support(t1, n))
+        r = M.op('apply', rng.choice(['\\A', 'forall'] if fa else ['\\E', 'exists']), u1, u0, None)
+        expect = T.forall(t0, n, sup) if fa else T.exists(t0, n, sup)
     elif opname == 'let_bool':
         r = M.op('let_bool', {1: True, 3: False}, u0)
         expect = T.cofactor(t0, n, {1: True, 3: False})
